@@ -13,6 +13,9 @@ Every case is a literal tuple whose first element names the operation family:
   ("repeat", shape, chunks, repeats, axis) / ("tile", shape, chunks, reps)
   ("pad", shape, chunks, pad_width, mode, kwargs) / ("tri", fn, shape, chunks, k)
   ("diff", shape, chunks, n, axis, prepend, append) / ("roll", shape, chunks, shift, axis)
+  ("rpair", shape, chunks, target)                      x.reshape(t) and da.reshape(x, t, merge_chunks=False) used together
+  ("joint", family, tier, inputs, sub)                  ALL argument variants of the listed families on the SAME input(s), evaluated by
+                                                        one dask.compute(*variants) and inside one expression (concatenated ravels)
 The reference is the same NumPy call on the in-memory data (distinct integers, so every element is traceable).
 """
 from __future__ import annotations
@@ -33,6 +36,7 @@ ASSUMPTIONS = [
     "NotImplementedError (reshape that splits dimensions unevenly, repeat without axis, pad median / reflect_type='odd' ...) is a documented refusal: counted, never silent",
     "where NumPy itself raises the case is inapplicable; pad mode 'empty' leaves the border undefined, so only the interior is compared",
     "shuffle is compared with np.take(x, concatenated indexer, axis): the statement's reference for a positional reorder",
+    "joint groups leave out the input classes of recorded findings (judged by the single-case families) and keep merge_chunks=True / False reshapes in separate groups (their combination is the recorded finding checked by the 'rpair' family)",
     "pad mode='mean' with >= 2 padded axes uses one fixed data permutation (seed-independent) so that the recorded corner-rounding finding is reported under every seed",
 ]
 
@@ -114,13 +118,31 @@ def RULE(tier):
         f"reflect_type) x 1-d every (before, after) width in 0..{3 if t else 2} on n<={6 if t else 4}, 2-d {81 if t else 36} asymmetric per-axis width combinations, "
         "3-d two widths; tril/triu for every k; "
         "diff (n 0..3, prepend/append scalar or array); roll by every shift in [-n-1,n+1] per axis, flattened and multi-axis. Shapes: 1-d n<="
-        f"{7 if t else 5}, 2-d up to {'4x4' if t else '3x4'}{', 1-d (12,) for reshape' if t else ''}, 3-d (2,2,2),(1,2,3),(2,3,2), zero-length axes included. Oracle: exact values, dtype, lazy "
-        "shape/chunks vs computed blocks. non-trivial = some dask input has >= 2 chunks."
+        f"{7 if t else 5}, 2-d up to {'4x4' if t else '3x4'}{', 1-d (12,) for reshape' if t else ''}, 3-d (2,2,2),(1,2,3),(2,3,2), zero-length axes included. JOINT evaluation: for every input "
+        "(every chunking in the thorough tier; finest / single-chunk / one irregular chunking per shape in the quick tier) ALL argument variants of "
+        "concatenate+stack+hstack/vstack/dstack+block, of transpose+moveaxis+swapaxes+rollaxis+squeeze+expand_dims+flip+rot90+tril/triu+roll+repeat+tile+diff+"
+        "broadcast_to, of take+shuffle, of reshape and of pad are built on the same dask input(s) and computed (1) by ONE dask.compute(*variants) and (2) as ONE "
+        "expression (concatenation of the ravelled variants), each compared with NumPy; plus both spellings of every axis-reducing reshape (merge_chunks "
+        "True/False) combined in one graph. Oracle: exact values, dtype, lazy shape/chunks vs computed blocks. non-trivial = some dask input has >= 2 chunks "
+        "(joint: and >= 2 variants)."
     )
 
 
-FAMILIES = ["reorder", "squeeze", "flip", "tri", "roll", "bcast", "repeat", "diff", "take", "shuffle", "reshape", "concat", "block", "pad"]
-NSPLIT = {"reshape": 12, "concat": 12, "pad": 16, "take": 6, "shuffle": 6, "diff": 4, "block": 4, "bcast": 2, "roll": 3, "repeat": 3, "tri": 2}
+FAMILIES = ["reorder", "squeeze", "flip", "tri", "roll", "bcast", "repeat", "diff", "take", "shuffle", "reshape", "rpair", "concat", "block", "pad"]
+NSPLIT = {"rpair": 6, "reshape": 12, "concat": 12, "pad": 16, "take": 6, "shuffle": 6, "diff": 4, "block": 4, "bcast": 2, "roll": 3, "repeat": 3, "tri": 2}
+
+
+# JOINT families: ALL argument variants of one and the same input(s) are built side by side and evaluated in ONE dask.compute(...)
+# call and once more inside ONE expression (concatenation of the ravelled variants): results that are right alone must stay
+# right when their graphs are merged (layer / key names must depend on every argument).
+JOINT = {
+    "j-join": ("concat", "block"),
+    "j-axis": ("reorder", "squeeze", "flip", "tri", "roll", "repeat", "diff", "bcast"),
+    "j-take": ("take", "shuffle"),
+    "j-reshape": ("reshape",),
+    "j-pad": ("pad",),
+}
+JSPLIT = {"j-join": 4, "j-axis": 6, "j-take": 4, "j-reshape": 4, "j-pad": 6}
 
 
 def shards(tier):
@@ -129,6 +151,10 @@ def shards(tier):
         k = NSPLIT.get(fam, 1) * (3 if tier == "thorough" else 1)
         for part in range(k):
             out.append((fam, part, k))
+    for jf in JOINT:
+        k = JSPLIT[jf] * (3 if tier == "thorough" else 1)
+        for part in range(k):
+            out.append((jf, part, k))
     return out
 
 
@@ -515,7 +541,18 @@ def gen_pad(tier):
             yield ("pad", (2, 2, 2), ch, ((1, 0), (0, 2), (1, 1)), mode, kw)
 
 
+def gen_rpair(tier):
+    """the two spellings of one reshape -- x.reshape(t) and da.reshape(x, t, merge_chunks=False) -- used together"""
+    seen = set()
+    for case in gen_reshape(tier):
+        # only targets with FEWER axes than the input: there merge_chunks=False rechunks first, otherwise both spellings are one code path
+        if isinstance(case[3], tuple) and len(case[3]) < len(case[1]) and (case[1], case[2], case[3]) not in seen and case[1] != (12,):
+            seen.add((case[1], case[2], case[3]))
+            yield ("rpair", case[1], case[2], case[3])
+
+
 GEN = {
+    "rpair": gen_rpair,
     "reshape": gen_reshape,
     "reorder": gen_reorder,
     "squeeze": gen_squeeze,
@@ -533,8 +570,54 @@ GEN = {
 }
 
 
+def base_of(case):
+    """the inputs of a case (everything that is NOT an argument of the operation): ('u', shape, chunks) | ('p', parts)"""
+    op = case[0]
+    if op == "concat":
+        return ("p", case[3])
+    if op == "block":
+        return ("p", case[2])
+    if op in ("flip", "tri"):
+        return ("u", case[2], case[3])
+    return ("u", case[1], case[2])
+
+
+def joint_base_ok(base, tier):
+    """quick tier: joint groups for <= 3 chunkings per shape (finest, single chunk, one irregular); thorough: every chunking"""
+    if tier == "thorough":
+        return True
+    if base[0] == "u":
+        return tuple(base[2]) in [tuple(c) for c in few_chunkings(tuple(base[1]))]
+    return all(p[1] == "n" or tuple(p[2]) in [tuple(c) for c in few_chunkings(tuple(p[0]))] for p in base[1])
+
+
+def joint_groups(jfam, tier, only=None):
+    """(base, sub) -> list of variant cases (recorded-defect input classes are left to the single-case families).
+    sub: reshape variants with merge_chunks=True and with merge_chunks=False form two separate groups -- mixing the two
+    spellings of the SAME reshape in one graph is the recorded defect 'merge-chunks-name-collision', which has its own
+    family ('rpair') so that it cannot mask any other collision here."""
+    groups = {}
+    for fam in JOINT[jfam]:
+        for case in GEN[fam](tier):
+            b = base_of(case)
+            key = (b, case[4] if case[0] == "reshape" else None)
+            if only is not None and key != only:
+                continue
+            if only is None and not joint_base_ok(b, tier):
+                continue
+            if known_class(case) is not None:
+                continue
+            groups.setdefault(key, []).append(case)
+    return groups
+
+
 def cases_of(shard, tier):
     fam, part, k = shard
+    if fam in JOINT:
+        for i, (b, sub) in enumerate(joint_groups(fam, tier)):
+            if i % k == part:
+                yield ("joint", fam, tier, b, sub)
+        return
     for i, case in enumerate(GEN[fam](tier)):
         if i % k == part:
             yield case
@@ -564,6 +647,13 @@ def known_class(case):
             return "zero-size-multichunk"
     elif op == "concat":
         if case[1] == "concatenate" and case[2] is None and any(p[1] == "d" and int(np.prod(p[0])) == 0 and n_blocks(p[2]) > 1 for p in case[3]):
+            return "zero-size-multichunk"
+    elif op == "rpair":
+        shape, ch, tg = case[1], case[2], case[3]
+        lead = len(shape) - len(tg)
+        if lead > 0 and any(max(c) > 1 for c in ch[:lead]):
+            return "merge-chunks-name-collision"  # merge_chunks=False first rechunks the leading axes to 1, yet both results get one name
+        if int(np.prod(shape)) == 0 and n_blocks(ch) > 1:
             return "zero-size-multichunk"
     elif op == "transpose":
         if case[3] == "method" and case[4] is None:
@@ -747,8 +837,141 @@ def build(case, seed):
     raise ValueError(op)
 
 
+def run_joint(case, ctx, variants=None):
+    import dask
+    import dask.array as da
+
+    _, jfam, tier, base, sub = case
+    if variants is None:
+        variants = joint_groups(jfam, tier, only=(base, sub)).get((base, sub), [])
+    lazies, wants, posts, used = [], [], [], []
+    nontrivial = False
+    with warnings.catch_warnings():
+        warnings.simplefilter("ignore")
+        for v in variants:
+            f_da, f_np, chs, post = build(v, ctx.seed)
+            nontrivial = nontrivial or any(len(ax) >= 2 for ch in chs if ch for ax in ch)
+            try:
+                want = np.asanyarray(f_np())
+                r = f_da()
+            except Hang:
+                raise
+            except Exception:  # noqa: BLE001  (NumPy or dask refuses this variant: judged by the single-case family)
+                continue
+            if not hasattr(r, "__dask_graph__"):
+                continue
+            lazies.append(r)
+            wants.append(want)
+            posts.append(post)
+            used.append(v)
+        ctx.case(case, nontrivial=nontrivial and len(used) >= 2, outcome=(jfam, len(used)), n=max(len(used), 1))
+        if len(used) < 2:
+            ctx.count("joint_group_too_small")
+            return
+        # (1) one compute call over all variants
+        try:
+            gots = dask.compute(*lazies)
+        except Hang:
+            raise
+        except Exception as e:  # noqa: BLE001
+            ctx.violation(f"{jfam}:joint-compute-raises:{type(e).__name__}", case, f"dask.compute of {len(used)} variants raised {e!r}")
+            return
+        for v, r, got, want, post in zip(used, lazies, gots, wants, posts):
+            got = np.asanyarray(got)
+            if tuple(r.shape) != got.shape and not any(np.isnan(x) for x in r.shape):
+                ctx.violation(f"{jfam}:joint-lazy-shape", case, f"variant {v!r}: lazy shape {r.shape}, computed {got.shape} (NumPy {want.shape})")
+                return
+            if post is not None and got.shape == want.shape:
+                got, want = post(got), post(want)
+            why = arr.equal(got, want)
+            if why:
+                ctx.violation(f"{jfam}:joint-wrong-value", case, f"variant {v!r} computed together with {len(used) - 1} other variants of the same input: {why}")
+                return
+        # (2) one expression using all variants: concatenation of the ravelled results
+        sel = [i for i, (w, post) in enumerate(zip(wants, posts)) if w.size > 0 and post is None]
+        if len(sel) >= 2:
+            try:
+                # flatten with the group's own reshape spelling (ravel() is x.reshape(-1) with merge_chunks=True and would
+                # re-create the recorded 'merge-chunks-name-collision' inside the merge_chunks=False groups)
+                flat = (lambda v: da.reshape(v, (-1,), merge_chunks=False)) if sub is False else (lambda v: v.ravel())
+                expr = da.concatenate([flat(lazies[i]) for i in sel])
+                got = np.asanyarray(expr.compute())
+            except Hang:
+                raise
+            except Exception as e:  # noqa: BLE001
+                ctx.violation(f"{jfam}:joint-expression-raises:{type(e).__name__}", case, f"concatenate of {len(sel)} ravelled variants raised {e!r}")
+                return
+            want = np.concatenate([wants[i].ravel() for i in sel])
+            why = arr.equal(got, want)
+            if why:
+                bad = "?"
+                if got.shape == want.shape:
+                    off = int(np.flatnonzero(got != want)[0])
+                    sizes = np.cumsum([wants[i].size for i in sel])
+                    bad = repr(used[sel[int(np.searchsorted(sizes, off, side="right"))]])
+                ctx.violation(f"{jfam}:joint-expression-wrong-value", case, f"first differing variant {bad}: {why}")
+
+
+def run_rpair(case, ctx):
+    import dask
+    import dask.array as da
+
+    _, shape, chunks, tg = case
+    d, x = mk(shape, chunks, ctx.seed)
+    sub = known_class(case)
+    suffix = f":{sub}" if sub else ""
+    nontrivial = any(len(ax) >= 2 for ax in chunks)
+    try:
+        want = x.reshape(tg)
+    except Exception:  # noqa: BLE001
+        ctx.case(case, nontrivial=nontrivial, outcome="numpy-raises")
+        ctx.count("inapplicable")
+        return
+    try:
+        a = d.reshape(tg)
+        b = da.reshape(d, tg, merge_chunks=False)
+    except Hang:
+        raise
+    except Exception as e:  # noqa: BLE001  (each spelling alone is judged by the 'reshape' family)
+        ctx.case(case, nontrivial=nontrivial, outcome=type(e).__name__)
+        ctx.count("rejected" if isinstance(e, NotImplementedError) else "single_spelling_raises")
+        return
+    ctx.case(case, nontrivial=nontrivial, outcome=(want.shape, a.chunks == b.chunks))
+    uses = [
+        ("compute", lambda: dask.compute(a, b), lambda: (want, want)),
+        ("concatenate", lambda: (da.concatenate([a.ravel(), b.ravel()]).compute(),), lambda: (np.concatenate([want.ravel(), want.ravel()]),)),
+        ("add", lambda: ((a + b).compute(),), lambda: (want + want,)),
+    ]
+    for label, f, w in uses:  # the first failing use is reported
+        if label == "concatenate" and want.size == 0:
+            continue
+        try:
+            gots = f()
+        except Hang:
+            raise
+        except Exception as e:  # noqa: BLE001
+            # which of the two same-named layers survives depends on the (data-dependent) key names, so for the recorded
+            # collision class "raises" and "wrong value" are one finding key (stable across seeds)
+            key = f"rpair:combined-failure{suffix}" if sub == "merge-chunks-name-collision" else f"rpair:combined-raises:{type(e).__name__}{suffix}"
+            ctx.violation(key, case, f"{label} of x.reshape(t) and reshape(x, t, merge_chunks=False) raised {e!r}")
+            return
+        for got, wn in zip(gots, w()):
+            why = arr.equal(np.asanyarray(got), wn)
+            if why:
+                ctx.violation(
+                    f"rpair:combined-failure{suffix}" if sub == "merge-chunks-name-collision" else f"rpair:combined-wrong-value{suffix}",
+                    case,
+                    f"{label}: x.reshape(t) [chunks {a.chunks}] with reshape(x, t, merge_chunks=False) [chunks {b.chunks}], same name: {a.name == b.name}: {why}",
+                )
+                return
+
+
 def run_case(case, ctx):
     op = case[0]
+    if op == "joint":
+        return run_joint(case, ctx)
+    if op == "rpair":
+        return run_rpair(case, ctx)
     f_da, f_np, chs, post = build(case, ctx.seed)
     nontrivial = any(len(ax) >= 2 for ch in chs if ch for ax in ch)
     sub = known_class(case)
@@ -807,6 +1030,16 @@ def run_case(case, ctx):
 
 
 def run_shard(shard, ctx):
+    if shard[0] in JOINT:
+        fam, part, k = shard
+        for i, ((b, sub), variants) in enumerate(joint_groups(fam, ctx.tier).items()):
+            if i % k != part:
+                continue
+            if ctx.out_of_time():
+                return
+            case = ("joint", fam, ctx.tier, b, sub)
+            ctx.guard(case, run_joint, case, ctx, variants, seconds=240.0)
+        return
     for case in cases_of(shard, ctx.tier):
         if ctx.out_of_time():
             return
